@@ -462,6 +462,18 @@ def transfers(prog, hctx, env):
     return out
 
 
+def _local_body(t):
+    import engine.mir as _m
+    if _m.CURRENT is None:
+        return None
+    if len(t) > 3 and t[3] and t[3][0] == "meta" and t[3][2]:
+        for pr in _m.PROGRAMS:
+            b = pr.bodies.get(t[3][2])
+            if b is not None and b.kind == "fn":
+                return b
+    return None
+
+
 def term_in_all_paths(t, hit, inside=False, _memo=None):
     """does every phi-resolution of t contain, inside the argument of a message-adding Response
     builder call, a subterm accepted by `hit`?  (P8 on terms: at a phi all alternatives must)"""
@@ -483,6 +495,17 @@ def term_in_all_paths(t, hit, inside=False, _memo=None):
         r = all(term_in_all_paths(a, hit, inside, _memo) for a in t[1])
     elif t[0] == "call" and t[1].startswith("cosmwasm_std::Response::") and t[1].split("::")[-1] in ("add_message", "add_messages", "add_submessage", "add_submessages"):
         r = term_in_all_paths(t[2][0], hit, False, _memo) or term_in_all_paths(t[2][1], hit, True, _memo)
+    elif t[0] == "call" and _local_body(t) is not None:
+        # a message handed to a local helper is in the Response only if the helper returns it on
+        # every path: look at what the helper returns, not at what it is given
+        import engine.mir as _m
+        from engine.analysis import resolve_head, ok_payload
+        pr = _local_body(t).prog
+        rt = resolve_head(pr, t, (), 1)
+        if rt == t:
+            r = False
+        else:
+            r = term_in_all_paths(ok_payload(rt) if rt[0] in ("agg", "phi") else rt, hit, inside, _memo)
     else:
         r = any(term_in_all_paths(x, hit, inside, _memo) for x in t[1:] if isinstance(x, tuple))
     _memo[k] = r
